@@ -205,13 +205,13 @@ def gt_explore(cfg, depth, P):
 
 # ---------------------------------------------------------------- (c) real servers ----------------
 
-def one_request(s, timeout=8):
+def one_request(s, timeout=8, path=b"/plain", extra=None):
     try:
-        c = s.connect(timeout=timeout)
+        c = s.connect(timeout=timeout, extra=extra)
     except OSError as e:
         return ("connect", type(e).__name__)
     try:
-        c.sendall(b"GET /plain HTTP/1.1\r\nHost: h\r\nConnection: close\r\n\r\n")
+        c.sendall(b"GET " + path + b" HTTP/1.1\r\nHost: h\r\nConnection: close\r\n\r\n")
         head, body, complete, closed = rp.read_response(c, timeout)
         if complete and body == b"ok":
             return ("ok", rp.header(head, "X-Pid"))
@@ -228,16 +228,44 @@ def one_request(s, timeout=8):
 
 def real_cell(cell):
     wc, maxr, jitter, load, bind = cell
-    s = rp.Server(worker_class=wc, workers=2, bind=bind, graceful_timeout=3, timeout=30, keepalive=2, threads=2 if wc == "gthread" else None,
-                  max_requests=maxr, max_requests_jitter=jitter)
+    conf_lines = []
+    if load.startswith("sequential+failing-exit-hook"):
+        # a server hook that fails in the exiting worker is that worker's problem: the server goes on
+        conf_lines = ["def worker_exit(server, worker):\n    raise RuntimeError('worker_exit hook failed')"]
+    s = rp.Server(worker_class=wc, workers=1 if load in ("slow-on-second-listener", "sequential+app-error-at-limit", "sequential+failing-exit-hook-1w") else 2, bind=bind, graceful_timeout=3, timeout=30, keepalive=2,
+                  threads=2 if wc == "gthread" else None, max_requests=maxr, max_requests_jitter=jitter, conf_lines=conf_lines,
+                  extra_binds=1 if load == "slow-on-second-listener" else 0)
     try:
         if not s.start():
             return ("infrastructure", "server did not start")
         time.sleep(0.3)
         first = set(s.workers())
         results = []
-        if load == "sequential":
+        if load == "slow-on-second-listener":
+            # a request still running on the second listener when a request on the first one reaches the limit
+            slow = []
+            th = threading.Thread(target=lambda: slow.append(one_request(s, timeout=12, path=b"/sleep/1.5", extra=0)))
+            th.start()
+            time.sleep(0.4)
+            for i in range(maxr - 1):
+                results.append(one_request(s))
+            th.join(15)
+            if not slow or slow[0][0] != "ok":
+                return ("in-flight-request-lost-at-recycle", "a 1.5 s request on the second listener was running when request %d on the first listener reached "
+                        "max_requests=%d: it got %r" % (maxr, maxr, slow[:1]))
+            time.sleep(0.5)
+            for i in range(4):
+                results.append(one_request(s))
+        elif load in ("sequential", "sequential+failing-exit-hook", "sequential+failing-exit-hook-1w"):
             for i in range(20 if maxr else 30):
+                results.append(one_request(s))
+                time.sleep(0.02)
+        elif load == "sequential+app-error-at-limit":
+            # the request that reaches the limit is one the application fails on
+            for i in range(maxr - 1):
+                results.append(one_request(s))
+            one_request(s, path=b"/boom")          # handled request number max_requests of the only worker
+            for i in range(12):
                 results.append(one_request(s))
                 time.sleep(0.02)
         else:
@@ -260,6 +288,17 @@ def real_cell(cell):
                 per_pid[r[1]] = per_pid.get(r[1], 0) + 1
         if s.proc.poll() is not None:
             return ("master-died", "master exited: %s" % s.log_text()[-200:])
+        if load.startswith("sequential+failing-exit-hook"):
+            time.sleep(0.5)
+            pid_now = None
+            try:
+                pid_now = int(open(s.pidfile).read())
+            except (OSError, ValueError):
+                pass
+            if pid_now != s.master_pid:
+                return ("pidfile-lost-at-recycle", "workers were recycled (their worker_exit hook raises): the pid file now holds %r, the master %d is running" % (pid_now, s.master_pid))
+            if bind == "unix" and not os.path.exists(s.sockpath):
+                return ("socket-file-lost-at-recycle", "the unix socket file is gone although the master runs")
         if errors:
             kinds = set(e[0] for e in errors)
             # one verdict per run, most severe first: could not connect > malformed reply > i/o error > accepted and dropped
@@ -270,6 +309,8 @@ def real_cell(cell):
                 return ("recycled-without-limit", "workers changed %r -> %r with max_requests=0" % (sorted(first), sorted(s.workers())))
             return None
         allowance = maxr + jitter
+        if load == "sequential+app-error-at-limit":
+            allowance += 0
         if load == "concurrent" and wc != "sync":
             allowance += 4      # requests already in flight when the limit was reached (at most one per client)
         over = {p: n for p, n in per_pid.items() if n > allowance}
@@ -296,6 +337,10 @@ def real_cells(thorough):
         else:
             cells += [(wc, 2, 0, "sequential", "unix"), (wc, 3, 0, "concurrent", "tcp"), (wc, 1, 2, "sequential", "tcp"),
                       (wc, 5, 0, "concurrent", "unix"), (wc, 0, 0, "sequential", "tcp")]
+        cells += [(wc, 2, 0, "sequential+failing-exit-hook", "unix"), (wc, 3, 0, "sequential+app-error-at-limit", "tcp"),
+                  (wc, 2, 0, "sequential+failing-exit-hook-1w", "tcp")]
+        if wc != "sync":
+            cells.append((wc, 2, 0, "slow-on-second-listener", "tcp"))
     return cells
 
 
